@@ -6,8 +6,6 @@ use crate::dev::lambda_words;
 use crate::exec::in_subject;
 use crate::report::Report;
 use crate::rng::ScriptRng;
-use rand::RngExt;
-use rand::distr::Distribution;
 use rand::distr::uniform::SampleUniform;
 use rand::distr::weighted::Weight;
 use rand_distr::weighted::{Error as WErr, WeightedTreeIndex};
@@ -246,7 +244,7 @@ fn sample_state<W: TW>(rep: &Report, tree: &WeightedTreeIndex<W>, list: &[W], hi
     let viol = |kind: &str, what: String| {
         rep.violation(format!("WeightedTreeIndex<{tn}>|{kind}"), format!("WeightedTreeIndex<{tn}>: {what} [weights {:?}; history: {hist}]", list), json!({"type": tn, "history": hist, "weights": format!("{:?}", list), "what": what}));
     };
-    let valid = tree.is_valid();
+    let valid = match catch_unwind(AssertUnwindSafe(|| in_subject(|| tree.is_valid()))) { Ok(v) => v, Err(_) => { viol("panic", format!("is_valid panicked: {}", crate::exec::last_panic())); return; } };
     if !valid {
         let mut rng = ScriptRng::new(&[], 1);
         match catch_unwind(AssertUnwindSafe(|| in_subject(|| tree.try_sample(&mut rng)))) {
@@ -271,11 +269,13 @@ fn sample_state<W: TW>(rep: &Report, tree: &WeightedTreeIndex<W>, list: &[W], hi
         None
     };
     let total_i: i128 = list.iter().map(|w| w.as_i()).sum();
+    if !W::IS_FLOAT && total_i <= 0 {
+        // the structure claims to be valid while the reference total is zero: C09's matter (inconsistent state)
+        return;
+    }
     if !W::IS_FLOAT && total_i <= 4096 {
         // every target once: find, with the environment's own function, a word that makes random_range return t
         st.sample_states_exact += 1;
-        let total_w = tree.get(0); // only to obtain a value of type W; the range end is rebuilt below
-        let _ = total_w;
         let mut counts = vec![0i128; list.len()];
         let mut w = 0u64;
         let step = (u64::MAX as u128 / total_i as u128) as u64;
